@@ -252,13 +252,53 @@ def _discharge(ob, timeout_s=None, want_model=True):
         ob.status, ob.backend = "proved", "z3-api/skolemise+instantiate"
         return True
 
+    def split_try(tmo):
+        """sound and complete reformulation for VCs that hinge on a few free Boolean constants inside If-terms of a heavy theory (floating point:
+        `fpMul(a, If(ok, x, -1.0))` is bit-blasted before the solver learns that `ok` holds): decide the VC once per assignment of at most
+        three such constants, substituted and simplified first.  Only `unsat` of EVERY case counts."""
+        fs = flat + [z3.Not(ob.goal)]
+        consts, seen, todo = {}, set(), list(fs)
+        while todo and len(seen) < 20000:
+            x = todo.pop()
+            if x.get_id() in seen:
+                continue
+            seen.add(x.get_id())
+            if z3.is_quantifier(x):
+                continue                    # (quantified hypotheses are kept as they are)
+            if z3.is_const(x) and z3.is_bool(x) and x.decl().kind() == z3.Z3_OP_UNINTERPRETED:
+                consts[x.get_id()] = x
+            todo.extend(x.children())
+        if len(consts) > 3:
+            consts = {}                     # too many: one case, the simplified formula itself
+        import itertools
+        cs = list(consts.values())
+        deadline = time.time() + tmo
+        for vals in itertools.product((True, False), repeat=len(cs)):
+            sub = [(c, z3.BoolVal(v)) for c, v in zip(cs, vals)]
+            sol = z3.Solver()
+            sol.set("timeout", int(max(1.0, deadline - time.time()) * 1000))
+            for f in fs:
+                sol.add(z3.simplify(z3.substitute(f, *sub)))
+            try:
+                r_ = sol.check()
+                if os.environ.get("DV_DBG_SPLIT"):
+                    print("split_try case", vals, r_, len(fs))
+                if r_ != z3.unsat:
+                    return False
+            except z3.Z3Exception as ex_:      # pragma: no cover
+                if os.environ.get("DV_DBG_SPLIT"):
+                    print("split_try exception", ex_)
+                return False
+        ob.status, ob.backend = "proved", "z3-api/simplified" + ("+bool-case-split" if cs else "")
+        return True
+
     flat = []
     for p in ob.path:
         flat.extend(p.children() if z3.is_and(p) else [p])
 
     # portfolio: short z3, cvc5, then z3 at the full budget with two configurations, then z3 4.8
     short = max(2.0, timeout_s / 6.0)
-    done = (qf_try(short) or z3_try("z3-api", {}, short) or inst_try(timeout_s)
+    done = (qf_try(short) or z3_try("z3-api", {}, min(short, 2.0)) or split_try(short) or z3_try("z3-api", {}, short) or inst_try(timeout_s)
             or cli_try("cvc5-cli", ["/usr/bin/cvc5", "--tlimit=%d" % int(timeout_s * 1000)], timeout_s)
             or z3_try("z3-api", {}, timeout_s)
             or z3_try("z3-api/seed7", {"random_seed": 7, "smt.arith.solver": 2}, timeout_s)
